@@ -11,6 +11,9 @@ mod verif_kani_tokrollback {
     // which dominate CBMC's cost) is dropped: the pasted methods resolve `ensure!` and `Result` to these local definitions.
     struct ShimError;
     type Result<T> = core::result::Result<T, ShimError>;
+    macro_rules! infoln {
+        ($($t:tt)*) => {};
+    }
     macro_rules! ensure {
         ($c:expr, $($t:tt)*) => {
             if !($c) {
@@ -24,6 +27,7 @@ mod verif_kani_tokrollback {
     //@@ fnspan parser/src/tokenparser.rs tp_check_initialized TokenParser::check_initialized
     //@@ fnspan parser/src/tokenparser.rs tp_stopped TokenParser::stopped
     //@@ fnspan parser/src/tokenparser.rs tp_error_message TokenParser::error_message
+    //@@ fnspan parser/src/tokenparser.rs tp_consume_token TokenParser::consume_token
 
     const VOCAB: usize = 4;
     const MAXTOK: usize = 3;
@@ -42,8 +46,18 @@ mod verif_kani_tokrollback {
         fail: bool,
         calls: usize,
         last_arg: usize,
+        eos_scanned: usize,
     }
     impl ShimParser {
+        /// the parser may consume an EOS itself (gen() terminated by EOS); nondeterministic here
+        fn scan_eos(&mut self) -> bool {
+            let b: bool = kani::any();
+            if b {
+                self.eos_scanned += 1;
+            }
+            b
+        }
+        fn log_row_infos(&mut self, _lbl: &str) {}
         fn rollback(&mut self, n: usize) -> Result<()> {
             self.calls += 1;
             self.last_arg = n;
@@ -67,11 +81,49 @@ mod verif_kani_tokrollback {
         llm_bytes: Vec<u8>,
         is_fresh: bool,
         had_rollback: bool,
+        // --- only used by consume_token ---
+        eos_tokens: Vec<TokenId>,
+        accepting: bool,
+        apply_fails: bool,
+        /// ghost: bytes each entry of llm_tokens contributed (TokHist)
+        contrib: Vec<usize>,
     }
     impl ShimTP {
         fn tok_trie(&self) -> &ShimTrie {
             &self.trie
         }
+        fn is_accepting(&mut self) -> bool {
+            self.accepting
+        }
+        fn stop(&mut self, _warn: &str, reason: StopReason) -> ShimError {
+            self.stop_reason = reason;
+            ShimError
+        }
+        fn anyhow_error(&self) -> ShimError {
+            ShimError
+        }
+        /// ASSUMED effect of the real apply_token (tokenparser.rs, Earley side): the token is recorded, and on success its
+        /// decode_raw bytes (= token_len) are appended to llm_bytes and to the parser
+        fn apply_token(&mut self, tok_id: TokenId) -> Result<usize> {
+            self.clear_caches();
+            self.llm_tokens.push(tok_id);
+            if self.apply_fails {
+                self.contrib.push(0);
+                return Err(self.stop("", StopReason::ParserTooComplex));
+            }
+            let l = self.trie.token_len(tok_id);
+            let mut i = 0;
+            while i < 3 {
+                if i < l {
+                    self.llm_bytes.push(0);
+                }
+                i += 1;
+            }
+            self.parser.nbytes += l;
+            self.contrib.push(l);
+            Ok(0)
+        }
+        /*@@paste tp_consume_token*/
         /*@@paste tp_rollback*/
         /*@@paste tp_clear_caches*/
         /*@@paste tp_check_initialized*/
@@ -132,7 +184,7 @@ mod verif_kani_tokrollback {
         let extra_parser_bytes: usize = 0;
         let mut tp = ShimTP {
             trie: ShimTrie { lens },
-            parser: ShimParser { nbytes: total + extra_parser_bytes, fail: kani::any(), calls: 0, last_arg: 0 },
+            parser: ShimParser { nbytes: total + extra_parser_bytes, fail: kani::any(), calls: 0, last_arg: 0, eos_scanned: 0 },
             is_accepting_cache: if kani::any() { Some(kani::any()) } else { None },
             ff_tokens_cache: if kani::any() { Some((Vec::new(), Vec::new())) } else { None },
             stop_reason: any_stop_reason(),
@@ -143,6 +195,10 @@ mod verif_kani_tokrollback {
             llm_bytes: bytes_of_len::<NTOK>(total),
             is_fresh: kani::any(),
             had_rollback: false,
+            eos_tokens: vec![3],
+            accepting: kani::any(),
+            apply_fails: kani::any(),
+            contrib: contrib.to_vec(),
         };
         let n: usize = kani::any();
         kani::assume(n <= NTOK + 1);
@@ -215,13 +271,70 @@ mod verif_kani_tokrollback {
         run::<3>();
     }
 
+    /// consume_token keeps the TokHist invariant that rollback relies on: a token is recorded in eos_without_bytes exactly when
+    /// it contributed no bytes, |llm_bytes| = parser bytes = sum of contributions, an EOS the parser scanned is not recorded
+    #[kani::proof]
+    #[kani::unwind(11)]
+    fn consume_keeps_hist() {
+        let lens: [usize; VOCAB] = kani::any();
+        kani::assume(lens[0] >= 1 && lens[0] <= 3 && lens[1] >= 1 && lens[1] <= 3 && lens[2] >= 1 && lens[2] <= 3 && lens[3] >= 1 && lens[3] <= 3);
+        let mut tp = ShimTP {
+            trie: ShimTrie { lens },
+            parser: ShimParser { nbytes: 0, fail: false, calls: 0, last_arg: 0, eos_scanned: 0 },
+            is_accepting_cache: None,
+            ff_tokens_cache: None,
+            stop_reason: StopReason::NotStopped,
+            error_message: None,
+            max_tokens_total: kani::any(),
+            llm_tokens: Vec::with_capacity(2),
+            eos_without_bytes: Vec::with_capacity(2),
+            llm_bytes: Vec::with_capacity(8),
+            is_fresh: false,
+            had_rollback: false,
+            eos_tokens: vec![3],
+            accepting: kani::any(),
+            apply_fails: kani::any(),
+            contrib: Vec::with_capacity(2),
+        };
+        let tok: u32 = kani::any();
+        kani::assume((tok as usize) < VOCAB);
+        let budget = tp.max_tokens_total;
+        let r = tp.consume_token(tok);
+        kani::cover!(r.is_ok() && tp.llm_tokens.len() == 1 && tp.eos_without_bytes.len() == 1);
+        kani::cover!(r.is_ok() && tp.llm_tokens.len() == 1 && tp.llm_bytes.len() > 0);
+        kani::cover!(r.is_ok() && tp.llm_tokens.len() == 0);
+        if budget == 0 {
+            assert!(r.is_err() && tp.llm_tokens.len() == 0 && tp.stop_reason == StopReason::MaxTokensTotal);
+            return;
+        }
+        if r.is_ok() {
+            // TokHist, stated on the concrete state: a recorded token contributes 0 bytes iff it is listed in
+            // eos_without_bytes, token_len bytes otherwise; llm_bytes and the parser hold exactly the sum
+            let mut total = 0usize;
+            let mut j = 0;
+            while j < tp.llm_tokens.len() {
+                if !tp.eos_without_bytes.contains(&j) {
+                    total += lens[tp.llm_tokens[j] as usize];
+                } else {
+                    assert!(tp.eos_tokens.contains(&tp.llm_tokens[j])); // only EOS tokens are ever recorded as byte-less
+                }
+                j += 1;
+            }
+            assert!(tp.llm_bytes.len() == total && tp.parser.nbytes == total);
+            assert!(tp.llm_tokens.len() <= 1 && tp.eos_without_bytes.len() <= tp.llm_tokens.len());
+        }
+        if tp.parser.eos_scanned > 0 && r.is_ok() {
+            assert!(tp.llm_tokens.len() == 0); // scanned by the parser: not recorded as an llm token
+        }
+    }
+
     // vacuity guard: must FAIL (claims a rollback never changes the token count)
     #[kani::proof]
     #[kani::unwind(11)]
     fn mustfail_tok_rollback_keeps_tokens() {
         let mut tp = ShimTP {
             trie: ShimTrie { lens: [1; VOCAB] },
-            parser: ShimParser { nbytes: 2, fail: false, calls: 0, last_arg: 0 },
+            parser: ShimParser { nbytes: 2, fail: false, calls: 0, last_arg: 0, eos_scanned: 0 },
             is_accepting_cache: None,
             ff_tokens_cache: None,
             stop_reason: StopReason::NotStopped,
@@ -232,6 +345,10 @@ mod verif_kani_tokrollback {
             llm_bytes: vec![0, 0],
             is_fresh: false,
             had_rollback: false,
+            eos_tokens: vec![3],
+            accepting: false,
+            apply_fails: false,
+            contrib: vec![1, 1],
         };
         let _ = tp.rollback(1);
         assert!(tp.llm_tokens.len() == 2);
